@@ -675,6 +675,7 @@ class Adapter:
     subdomain: str | None = None
     query: object = None            # None | str | tuple of pairs (mapping)
     environ: bool = False           # bound with Map.bind_to_environ(create_environ(...)) instead of Map.bind
+    host_suffix: str = ""           # environ only: the scheme's own default port spelled out in the Host header (":80" / ":443")
 
     def query_str(self) -> str:
         from werkzeug.urls import _urlencode
@@ -693,7 +694,7 @@ class Adapter:
 
     def make_environ(self, path: str = "/", method: str = "GET"):
         from werkzeug.test import create_environ
-        host = (self.subdomain + "." if self.subdomain else "") + self.server
+        host = (self.subdomain + "." if self.subdomain else "") + self.server + self.host_suffix
         q = self.query_str()
         return create_environ(path, f"{self.scheme}://{host}{self.script.rstrip('/')}/", query_string=q, method=method)
 
@@ -901,11 +902,11 @@ def canon_args(d: dict) -> str:
     return "|".join(f"{cps(k)}={canon_value(v)}" for k, v in sorted(d.items())) if d else "-"
 
 
-def run_impl(m, ad: Adapter, rules_by_obj: dict, path: str, meth: str) -> str:
+def observe(a, rules_by_obj: dict, path, meth: str) -> str:
+    """canonical observation of MapAdapter.match on a bound adapter (path None: the adapter's own PATH_INFO)."""
     from werkzeug.exceptions import MethodNotAllowed, NotFound
     from werkzeug.routing import RequestRedirect
     from werkzeug.routing.exceptions import WebsocketMismatch
-    a = ad.bind(m)
     try:
         rule, args = with_timeout(a.match, 5.0, path, meth, return_rule=True)
     except RequestRedirect as e:
@@ -922,6 +923,10 @@ def run_impl(m, ad: Adapter, rules_by_obj: dict, path: str, meth: str) -> str:
         return "EXN " + type(e).__name__
     rs = rules_by_obj[id(rule)]
     return f"M {rs.idx} {rs.endpoint} {canon_args(dict(args))}"
+
+
+def run_impl(m, ad: Adapter, rules_by_obj: dict, path: str, meth: str) -> str:
+    return observe(ad.bind(m), rules_by_obj, path, meth)
 
 
 def canon_model(line: str) -> str:
@@ -1536,7 +1541,8 @@ def load_corpus(pid: str):
                 q = tuple(tuple(x) for x in q)
             out.append((spec_from_json(c["map"]), c["paths"], c["methods"],
                         Adapter(scheme=a.get("scheme", "http"), server=a.get("server", "example.com"), script=a.get("script", "/"),
-                                subdomain=a.get("subdomain"), query=q, environ=bool(a.get("environ", False)))))
+                                subdomain=a.get("subdomain"), query=q, environ=bool(a.get("environ", False)),
+                                host_suffix=a.get("host_suffix", ""))))
     return out
 
 
@@ -1548,6 +1554,6 @@ def write_corpus(pid: str, name: str, what: str, cases) -> None:
     for ms, paths, meths, ad in cases:
         out["cases"].append({"map": spec_to_json(ms), "rules": [r.string() for r in ms.rules], "paths": paths, "methods": meths,
                              "adapter": {"scheme": ad.scheme, "server": ad.server, "script": ad.script, "subdomain": ad.subdomain,
-                                         "query": ad.query, "environ": ad.environ}})
+                                         "query": ad.query, "environ": ad.environ, "host_suffix": ad.host_suffix}})
     with open(os.path.join(VERIF, "corpus", pid, name), "w", encoding="utf-8") as fh:
         json.dump(out, fh, indent=1, ensure_ascii=False)
